@@ -530,6 +530,10 @@ def xconn_stage(ck, fw, corpus, groups, nvx=False):
     i = 0
     while i < len(cases):
         members = meta[i][1]
+        if res[i].get("skipped"):          # the driver gave up on multi-connection cases after repeated hangs
+            ck.bump("xconn:skipped-after-hangs")
+            i += 1 + len(members)
+            continue
         together = res[i]["xconn"]
         for j, (kind, label, c) in enumerate(members):
             alone = res[i + 1 + j]
@@ -699,6 +703,16 @@ def run(ck):
         "translator translators/ws_consts.py (ast + import) emits every integer comparison of the receive path and "
         "CLOSE_STATUS_CODES_ALLOWED into coq/Gen/WsConsts.v; trusted to emit what it reads, fails closed on a changed structure",
         "independent oracle: ws_recv.rfc_judge (RFC 6455 section 5 transcription, CPython's strict utf-8 codec, real zlib)",
+        "several connections per process: C02_connections_independent holds of the model by construction (state is a value); of the "
+        "implementation it is checked by xconn_stage (2-3 real connections of mixed roles / masking policies in one driver process, "
+        "reads interleaved, each connection compared with the same reads on a connection of its own), with AUTOBAHN_USE_NVX=0 and =1",
+        "permessage-deflate parameters (no_context_takeover per direction, window bits per direction) are not in the Gallina "
+        "configuration: the decompressor is an oracle; pmce_stage runs the 16 negotiated combinations x role with real zlib on both "
+        "sides and compares the messages delivered with the messages the peer compressed",
+        "write queue (sync / chopped writes): pending_stage compares every reaction with the same reads without queued writes; "
+        "observed, not judged: when the plain run itself drops the connection right after its own close frame (second failure, or "
+        "the server's TCP close after answering the peer's close) the queued close frame is discarded with the rest of the queue "
+        "(histogram pending:*:close-then-drop-in-plain-run)",
     ]
     ck.rule.append("(1) header sweep: first two octets h (all 65536 in thorough, a 4096-value stratified sample in quick) in "
                    "each of 64 receiver contexts (role x masking option x inside_message x compression x OPEN/CLOSING x failByDrop), "
@@ -707,7 +721,11 @@ def run(ck):
                    "CLOSING contexts; thorough = all 65536 headers of the OPEN contexts and the 4096-value sample of the CLOSING ones; the sequence "
                    "stage runs with AUTOBAHN_USE_NVX=0 and =1 (oracle and model); (2) generated frame sequences (fragmented text/binary, "
                    "interleaved control frames, close) with one mutated field, fed whole, at every split position (<= 40 octets), octet "
-                   "by octet and at random cuts, in both roles, both failure policies, both frameworks. non-trivial = the stream "
+                   "by octet and at random cuts, in both roles, both failure policies, both frameworks; (3) 120 (quick) / 600 groups of 2-3 "
+                   "connections in one process x random read interleavings (+60 / 300 with NVX); 16 permessage-deflate parameter "
+                   "combinations x role x fragmentation x policy x 2 segmentations, 4 compressed messages sharing content; every third boundary "
+                   "stream + 25 generated sequences x role x policy x (whole | one cut) x {no, synchronous, chopped} queued writes; the frame-based "
+                   "and streaming receive APIs; configuration plumbing. non-trivial = the stream "
                    "reaches processData with >= 2 octets; distinct = distinct (context, stream, segmentation)")
     gen_ok = regenerate(ck)
     broken = ck.coq_props()
@@ -745,11 +763,20 @@ def run(ck):
     split_dependent = {}
     # the real default UTF-8 validator / masker is the native (NVX) one: the whole stage runs with AUTOBAHN_USE_NVX=0 and =1
     seq_runs = [("tx", False), ("aio", False), ("tx", True)] + ([] if quick else [("aio", True)])
+    # the stages are independent driver processes: the two header sweeps (16 worker processes each) and the sequence runs
+    # are started together and collected in the order the report needs them
+    import concurrent.futures
+    pool = concurrent.futures.ThreadPoolExecutor(max_workers=8)
+    ctxs = contexts()
+    sample_hdrs = stratified_headers(ck.rng("headers"))
+    hdrs = None if not quick else sample_hdrs
+    hdrs_small = None if not quick else stratified_headers(ck.rng("headers"), 0)      # aio in quick: the boundary grid only
+    sweep_jobs = {fw: pool.submit(ck.run_impl, "ws_recv.py",
+                                  {"fw": fw, "sweep": {"contexts": ctxs, "headers": hdrs if fw == "tx" else hdrs_small, "procs": 16,
+                                                       "slices": 1 if quick else 4}}, nvx=False, timeout=7200) for fw in FWS}
+    prepared = []
     for fw0, nvx in seq_runs:
         fw = fw0 + ("/nvx" if nvx else "")
-        if not nvx:
-            config_plumbing(ck, fw0)
-            api_stage(ck, fw0, corpus)
         cases, meta = [], []
         for role in ("server", "client"):
             seqs = [("corpus", bytes.fromhex(c["stream"])) for c in corpus if c.get("role", role) == role]
@@ -787,7 +814,25 @@ def run(ck):
             keep = [i for i, m in enumerate(meta) if m[2] == "corpus" or m[2].startswith("boundary:") or m[3] % 3 == 0]
             cases, meta = [cases[i] for i in keep], [meta[i] for i in keep]
         ck.log(f"[{fw}] sequences: {len(cases)} implementation runs")
-        results = run_cases(ck, fw0, cases, nvx=nvx)
+        prepared.append((fw0, nvx, fw, cases, meta, burst_of, pool.submit(run_cases, ck, fw0, cases, nvx=nvx)))
+    for fw0, nvx, fw, cases, meta, burst_of, job in prepared:
+        if not nvx:
+            config_plumbing(ck, fw0)
+            api_stage(ck, fw0, corpus)
+            pmce_stage(ck, fw0, model_cases)
+            pend = []
+            for role in ("server", "client"):
+                pseqs = [(lbl, st) for k, (lbl, st) in enumerate(boundary_streams(masked=(role == "server"))) if k % 3 == 0]
+                pseqs += gen_sequences(ck.rng(f"pending/{role}"), 25, masked=(role == "server"))
+                for lbl, st in pseqs:
+                    for fbd in (True, False):
+                        pend.append(dict(BASE, role=role, fbd=fbd, chunks=[st.hex()]))
+                        if len(st) > 3:
+                            k = ck.rng(f"pending/cut/{len(pend)}").randint(1, len(st) - 1)
+                            pend.append(dict(BASE, role=role, fbd=fbd, chunks=[st[:k].hex(), st[k:].hex()]))
+            pending_stage(ck, fw0, pend, "C02")
+        xconn_stage(ck, fw0, corpus, (120 if quick else 600) if not nvx else (60 if quick else 300), nvx=nvx)
+        results = job.result()
         ck.evaluations += len(cases)
         ck.note_cases(0, (json.dumps([fw, c["role"], c["fbd"], c["closing"], c["utf8"], c["chunks"]]) for c in cases
                           if sum(len(x) for x in c["chunks"]) >= 4))
@@ -833,15 +878,13 @@ def run(ck):
                      {"fw": fw, "case": c, "observed": r, "whole_case": wc, "whole_observed": wr}, found_input=True)
 
     # ---------------- (1) header sweep
-    ctxs = contexts()
-    sample_hdrs = stratified_headers(ck.rng("headers"))
-    hdrs = None if not quick else sample_hdrs
-    hdrs_small = None if not quick else stratified_headers(ck.rng("headers"), 0)      # aio in quick: the boundary grid only
+    # the sequence sample goes to coqc now, next to the sweep comparison further down
+    terms = [coq_case(c, r) for _, c, r in model_cases]
+    seq_model_job = pool.submit(ck.coq_cases, "seq", IMPORTS, "wsrecv_case_ok", terms, ty="wsrecv_case", shard=150, jobs=6)
     sweep_terms, sweep_meta = [], []
     for fw in FWS:
-        use_ctxs = ctxs if not quick else ctxs
-        r = ck.run_impl("ws_recv.py", {"fw": fw, "sweep": {"contexts": use_ctxs, "headers": hdrs if fw == "tx" else hdrs_small, "procs": 16,
-                                                          "slices": 1 if quick else 4}}, nvx=False, timeout=7200)
+        use_ctxs = ctxs
+        r = sweep_jobs[fw].result()
         total = 0
         for part in r["sweep"]:
             total += part["n"]
@@ -880,8 +923,8 @@ def run(ck):
                      {"fw": fw, "context": ctx, "failing_headers": vals[0][:2000], "correspondence": "sweep_case_ok"}, found_input=False)
 
     # ---------------- model on the sequence sample
-    terms = [coq_case(c, r) for _, c, r in model_cases]
-    bad = ck.coq_cases("seq", IMPORTS, "wsrecv_case_ok", terms, ty="wsrecv_case", shard=150)
+    bad = seq_model_job.result()
+    pool.shutdown()
     ck.bump("model_compared_sequences", len(terms))
     ck.log(f"model vs implementation on sequences: {len(terms)} cases, {len(bad)} disagree")
     for i in bad[:5]:
@@ -907,6 +950,32 @@ def replay(path):
     print("framework     :", fw, "(native NVX validator/masker)" if nvx else "(pure Python validator/masker)")
     if "config_calls" in case:
         return replay_config(ck, fw, case)
+    if "xconn" in case:
+        together = run_cases(ck, fw, [case], nvx=nvx)[0]["xconn"]
+        alone = run_cases(ck, fw, case["xconn"], nvx=nvx)
+        bad = 0
+        print("read order (connection indices):", case["schedule"])
+        for j, (c, t, a) in enumerate(zip(case["xconn"], together, alone)):
+            same = canon_result(t) == canon_result(a)
+            bad += not same
+            print(f"connection {j} ({c['role']}, failByDrop={c['fbd']}, reads {[len(x) // 2 for x in c['chunks']]}): "
+                  f"{'same as alone' if same else 'DIFFERS from the same reads on a connection of its own'}")
+            if not same:
+                print("   together:", json.dumps([t["events"], t["state"], t["close"]])[:1500])
+                print("   alone   :", json.dumps([a["events"], a["state"], a["close"]])[:1500])
+                print("   RFC oracle together:", ws_recv.check_against_rfc(c, t) or "conforms", "| alone:", ws_recv.check_against_rfc(c, a) or "conforms")
+        return 1 if bad else 0
+    if "pending_writes" in case:
+        plain = {k: v for k, v in case.items() if k != "pending_writes"}
+        r, p0 = run_cases(ck, fw, [case, plain])
+        print("case            :", json.dumps(case))
+        print("with queued writes   :", json.dumps([r["events"], r["state"], r["close"], r.get("pending_written")]))
+        print("without queued writes:", json.dumps([p0["events"], p0["state"], p0["close"]]))
+        pick = lambda x: ([e for e in x["events"] if e[0] in ("msg", "ping", "pong")], [e for e in x["events"] if e[0] in ("sendclose", "drop")], x["state"], x["close"])
+        pw = r["pending_written"]
+        bad = pick(r) != pick(p0) or bool(pw["after_close"]) or (not any(e[0] == "drop" for e in p0["events"]) and pw["written"] != pw["queued"])
+        print("verdict:", "reaction differs / queue mishandled" if bad else "same reaction")
+        return 1 if bad else 0
     res = run_cases(ck, fw, [case], nvx=nvx)[0]
     print("case          :", json.dumps(case))
     print("implementation:", json.dumps(res))
